@@ -2,6 +2,7 @@
 import itertools
 import random
 
+from bcheck import history
 from bcheck.common import Collector, args, run_sharded, call
 
 from ural import normalize_url, infer_redirection
@@ -89,6 +90,10 @@ def transforms(b, rnd, tier):
             yield "escape-spelling-path", b.copy(path=b.path.replace(raw, esc, 1))
     yield "surrounding-whitespace", b.copy(wrap=("  \t", "\n "))
     yield "control-characters", b.copy(wrap=("\x00", "\x7f"))
+    yield "control-characters", b.copy(wrap=("\x85\x9f", "\x80"))   # C1 controls: the standard parser does not strip those itself
+    # both at once, the control character outside the blank and inside it
+    yield "control-characters+whitespace", b.copy(wrap=("\x00 ", " \x7f"))
+    yield "control-characters+whitespace", b.copy(wrap=(" \x08\t", "\x9f \x01"))
 
 
 HOSTFAM = ("irrelevant-subdomain", "amp-prefix", "host-case")
@@ -118,6 +123,13 @@ def bases():
     for items in (["id=7", "_rdr"], ["v=1", "t=10", "si=abc"], ["ab_channel=x", "q=1"]):
         out.append(Base("a.com", "/watch", items))
         out.append(Base("blog.a.co.uk", "/p", items))
+    # redirect-carrying bases: every documented-irrelevant variation of the carrier must leave the inferred target alone
+    out.append(Base("a.com", "/r", ["url=http%3A%2F%2Fb.com%2Fx%3Fid%3D1"]))
+    out.append(Base("a.com", "/r", ["x=1", "u=/local/path"]))
+    out.append(Base("youtube.com", "/redirect", ["q=b.com/x", "v=1"]))
+    out.append(Base("b-com.cdn.ampproject.org", "/c/s/b.com/a", ["id=1"]))
+    out.append(Base("google.com", "/url", ["q=https://b.com/a/", "sa=D"]))
+    out.append(Base("bc.marfeel.com", "/b.com/a", []))
     out.append(Base("a.com", "/a", ["id=1"], "/route"))
     out.append(Base("a.com", "/a", [], "!/route"))
     return out
@@ -185,6 +197,8 @@ REDIRECTS = ["a.com:8080/p?u=/x", "a.com/p?next=/x%3Fa%3D1", "//a.com/p?u=/x", "
 def main():
     a = args("C04")
     col = Collector("C04", a.tier, a.seed)
+    if a.replay and history.replayed(a, col, "C04"):
+        return
     if a.replay:
         import json
         rp = json.load(open(a.replay))
@@ -216,6 +230,7 @@ def main():
                 "non-routing fragment, tracking / session / AMP items at every position, every permutation of <= 4 items, '&amp;' separators, escape spelling and hex "
                 "case, surrounding whitespace, control characters) and random pairwise compositions; repeated with quoted=True and platform_aware=True; plus "
                 "normalize_url(u) == normalize_url(infer_redirection(u), infer_redirection=False) on redirect-carrying URLs. distinct_nontrivial = (transformation, base) pairs")
+    history.run(col, "C04", a.tier == "quick")
     col.dump(a.out)
 
 
